@@ -11,7 +11,7 @@ from vlib import ROOT, BUILD, COQ, sh
 
 TRUSTED_COMMON = [
     "Coq 8.16.1 kernel and VM (vm_compute for finite reflection; no native_compute)",
-    "extraction: ExtrOcamlBasic only (bool/option/unit/list/prod/sumbool/sumor -> OCaml; andb/orb inlined); N/Z/positive/nat stay extracted inductives",
+    "extraction: ExtrOcamlBasic (bool/option/unit/list/prod/sumbool/sumor -> OCaml; andb/orb inlined); N/Z/positive/nat stay extracted inductives; units with binary64 models additionally ExtrOCamlFloats (PrimFloat.* -> coq-core Float64) and, where used, ExtrOCamlInt63",
     "ocaml/modelrun.ml (case parsing, printing) + zarith for decimal printing",
     "Rust harness harness/* (case generators, canonical printers)",
     "tools/vlib.py, tools/props.py (driver, diff, evidence)",
@@ -281,7 +281,10 @@ def run(pid, tier, seed):
         obligations=coq["obligations"], discharged=coq["discharged"],
         theorems=coq["theorems"],
         checker_cmd="make -C coq Props/%s.vo (coqc 8.16.1, full .vo build) + Print Assumptions allowlist + hygiene grep" % pid,
-        trusted_base=TRUSTED_COMMON + cfg["trusted"],
+        trusted_base=TRUSTED_COMMON + cfg["trusted"] + (
+            ["axioms / kernel primitives the pinned theorems depend on, as Print Assumptions reports them (all declared by the "
+             "Coq standard library or kernel, none by this development): " + ", ".join(coq["axioms"])] if coq["axioms"]
+            else ["Print Assumptions: every pinned theorem is closed under the global context (no axioms)"]),
         axioms_reported=coq["axioms"], axioms_allowed=cfg["axioms"], hygiene_findings=hyg,
         evaluations=len(cases), distinct_nontrivial=len(distinct), rule=cfg["rule"],
         samples=samples, generator_histogram=dict(hist), implementation_outcomes=dict(outcome),
